@@ -190,6 +190,7 @@ impl<'a> G<'a> {
         self.p(")");
     }
 
+    /// declaration-level directives: any name, optional arguments
     fn directives(&mut self, depth: usize) {
         let n = *self.r.pick(&[0, 0, 0, 1, 1, 2]);
         for _ in 0..n {
@@ -199,6 +200,38 @@ impl<'a> G<'a> {
             if self.r.chance(1, 4) {
                 self.args(depth + 1);
             }
+        }
+    }
+
+    /// selection-level directives: the parser deserialises them (at most one known directive)
+    fn selection_directives(&mut self, object: bool) {
+        match self.r.below(12) {
+            0 | 1 => {
+                self.p("@");
+                self.word("updatable");
+            }
+            2 if !object => {
+                self.p("@");
+                self.word("loadable");
+            }
+            3 if !object => {
+                self.p("@");
+                self.word("loadable");
+                self.p("(");
+                self.word("lazyLoadArtifact");
+                self.p(":");
+                let b = *self.r.pick(&["true", "false"]);
+                self.word(b);
+                if self.r.chance(1, 3) {
+                    self.sep();
+                }
+                self.p(")");
+            }
+            4 if self.r.chance(1, 3) => {
+                self.p("@");
+                self.word("foo"); // unknown directive: rejected
+            }
+            _ => {}
         }
     }
 
@@ -247,8 +280,9 @@ impl<'a> G<'a> {
             if self.r.chance(1, 4) {
                 self.args(depth);
             }
-            self.directives(depth);
-            if depth < 3 && self.r.chance(1, 3) {
+            let object = depth < 3 && self.r.chance(1, 3);
+            self.selection_directives(object);
+            if object {
                 self.selection_set(depth + 1);
             }
             self.sep();
@@ -384,11 +418,11 @@ pub fn gen_doc(r: &mut Rng) -> String {
         if r.chance(1, 12) {
             s.push_str("// ");
         }
-        if r.chance(4, 5) {
+        if r.chance(9, 10) {
             s.push_str(&format!("export const C{} ={}", i, *r.pick(&[" ", " ", "\n  ", "  "])));
         }
         s.push_str("iso");
-        let paren = !r.chance(1, 14);
+        let paren = !r.chance(1, 25);
         if paren {
             s.push('(');
         }
@@ -403,7 +437,7 @@ pub fn gen_doc(r: &mut Rng) -> String {
         if paren {
             s.push(')');
         }
-        if r.chance(5, 6) {
+        if r.chance(11, 12) {
             s.push_str("(function C() { return 1 })");
         }
         // text between literals: sometimes on the same line (non-ASCII before the next literal)
